@@ -39,6 +39,7 @@ CLAIMED = {
             "Trusted: the harness' reference algorithms (cross-checked by the competitor search), numpy.linalg.", "DESIGN.md §2 C12"),
     "C13": ("runtime KKT-certificate monitor on solver returns + objective gap to an independent NNLS reference",
             "Seeded well-conditioned problems with planted active/inactive constraints, cold and warm starts and l1/ridge penalties "
+            "(private copies or shared read-only arrays, optionally after an aborted solve on the same arrays; ADMM with non-zero duals) "
             "are solved by the real HALS/FISTA/active-set/ADMM code under explicit budgets; each returned point gets a per-input "
             "optimality certificate (non-negativity, KKT from independent UtU/UtM, objective vs scipy NNLS). Convergence is "
             "restated as bounded progress; budget-exhausted-but-optimal-objective cases are counted inconclusive.",
@@ -46,8 +47,8 @@ CLAIMED = {
     "C19": ("runtime consistency monitor on fitted regressors (predict vs exposed weights; metamorphic relations for CP-PLSR)",
             "Seeded regression problems are fitted by the real estimators; predictions on training and unseen data are compared with "
             "the contraction of the exposed weight tensor, the weight tensor with the reconstruction of the exposed factors and its "
-            "vectorisation; CP-PLSR is checked for transform==scores, unit loadings, constant-shift invariance and sample-permutation "
-            "equivariance by re-fitting. Sampled.",
+            "vectorisation, also after a re-fit aborted by a failpoint in the sweep; CP-PLSR is checked for transform==scores (X and Y scores, "
+            "twice, inputs untouched), unit loadings, constant-shift invariance and sample-permutation equivariance by re-fitting. Sampled.",
             "Trusted: numpy.einsum. CP-PLSR relations asserted on generic data to 1e-6 relative.", "DESIGN.md §2 C19"),
     "C20": ("runtime optimality monitor: brute force over all R! matchings; invariance and definition checks on real metric calls",
             "Seeded factor sets (generic, near-copies, permuted+rescaled copies with all permutations for R<=4) are scored by the real "
@@ -97,34 +98,39 @@ CLAIMED = {
             "and from the weight-absorbed form must agree after 1-3 sweeps (with guards for ill-posed sweeps), fixed-mode factors must "
             "be bit-identical and all-fixed must return the init. Sampled, orders 2-4.",
             "Non-negative algorithms only with non-negative inits; Tucker fixed factors orthonormal.", "DESIGN.md §2 C14"),
-    "C16": ("global-RNG state tracer + bitwise differential of repeated seeded calls",
+    "C16": ("global-RNG state tracer + bitwise differential of repeated (sequential, fresh-process and concurrent with statement-level yield injection) seeded calls",
             "All 30 seed-accepting entry points (random generators, every randomly initialised decomposition, randomized SVD, sampled "
             "variants, TT-cross, regressors, initialisers) are called twice with the same integer seed and twice with identically "
             "seeded RandomState objects while the harness reseeds and advances the global generator in between; outputs must be "
             "bit-identical and numpy.random.get_state() unchanged across integer-seeded calls; seed-free functions must repeat "
-            "exactly. Vacuity guard: the output must change with seed+1 (counted).",
+            "exactly. A quarter of the second calls run in a fresh interpreter; estimators are re-fitted and cloned; and in half the cases "
+            "three threads (two with the same seed) make the call at once with sys.monitoring LINE callbacks yielding at every statement "
+            "boundary inside tensorly: every result must equal the call made alone. Vacuity guard: the output must change with seed+1 (counted).",
             "Bitwise comparison of every array reachable from the return value.", "DESIGN.md §2 C16"),
     "C18": ("dtype tracer on every array reachable from return values",
-            "88 entry points (tensor algebra, conversions/transforms, SVD routes, 28 decomposition configurations, 14 proximal operators, "
-            "NNLS/ADMM solvers, regressors, random generators, preprocessing, metrics) are called with float32, float64 and (where "
+            "113 entry points (tensor algebra, conversions/transforms, SVD routes, 34 decomposition configurations incl. masks of another dtype, "
+            "14 proximal operators, NNLS/ADMM solvers incl. the active-set restart path, regressors, random generators, initialisers, contrib "
+            "decompositions, estimator classes, wrapper methods, preprocessing, metrics) are called with float32, float64 and (where "
             "conjugation is handled) complex128 inputs over seeded shapes/options; every floating array or NumPy scalar reachable "
             "from the result must carry the input dtype (singular values of complex input may be real). Sampled.",
             "Documented exemptions only (leverage scores float64, integer outputs, Python floats).", "DESIGN.md §2 C18"),
     "C17": ("history recording at the API boundary checked step-by-step against an executable non-deterministic reference model; bounded-exhaustive "
             "operation sequences + random histories + free-running stress with yield injection",
-            "Worker threads execute set_backend / backend_context enter / exit (normal and by exception) / rejected selections one operation "
+            "Worker threads execute set_backend / backend_context enter / exit (normal and by exception) / rejected selections and rejected context entries one operation "
             "at a time under a controller; after every operation all threads report the backend they see, its identity and the instance "
             "that executed a dispatched call; the set of model states consistent with all observations must stay non-empty. All sequences "
             "up to length 4 (quick) / 5 (thorough) over 2 threads x 2 backends for both managers, random histories over 3 threads x 3 "
-            "backends, cross-manager independence, and stress runs (switch interval 1e-6, sys.monitoring LINE yields) asserting only "
-            "schedule-independent invariants.",
+            "backends, cross-manager independence, and stress runs (switch interval 1e-6, sys.monitoring LINE yields inside set_backend, "
+            "backend_context, current_backend and the dispatch wrapper) asserting only schedule-independent invariants: own view and the "
+            "backend that executes a dispatched call.",
             "Stub backends (NumpyBackend subclasses named cupy/jax) stand in for uninstalled ones; GIL-atomic bytecodes not interleaved.", "DESIGN.md §2 C17"),
     "C15": ("aliasing/mutation sanitizer: byte-level argument snapshots before/after every depth-0 call of wrapped public entry points; fault injection",
-            "~180 public functions and estimator methods are wrapped by identity re-binding; for every call made by the harness each "
+            "~200 public functions and estimator methods are wrapped by identity re-binding; for every call made by the harness each "
             "mutable argument (array bytes/dtype/shape and the base buffer of views, container identities, wrapper attributes) is "
             "snapshotted before and compared after the call returns or raises. Workloads: hostile argument kinds (views, read-only, "
             "lists/tuples/wrappers, masks, option lists, user inits), raising callbacks and backend failpoints (solve/svd/qr/dot/lstsq "
-            "raising on their n-th call), and the workloads of 12 other properties replayed under the sanitizer.",
+            "raising on their n-th call), a generator for every public entry point no other workload calls directly (audited from the per-entry "
+            "call counts), and the workloads of 12 other properties replayed under the sanitizer.",
             "In-place parameters whitelisted by parameter (copy=False mode products, hals_nnls V, index_update).", "DESIGN.md §2 C15"),
 }
 
